@@ -80,7 +80,52 @@ def segments_into(prop, seg, fnd, cov, ck, what):
     cov[what + "_points_hit"] = cov.get(what + "_points_hit", 0) + fired
 
 
+def stage_list(tier, ck):
+    """pointer-level model LruList: the algorithm as in the working tree must satisfy
+    MemSafe / WellFormed / Refines; the two pinned variants (F4, F3) must be REJECTED,
+    which shows the model can tell them apart (vacuity guard)"""
+    import shutil
+
+    def go(d):
+        w = ck.spec_workdir(d)
+        out = {}
+        for key, cfg, want_ok in (("repaired", "MC_List%s.cfg" % ck.tier_suffix(tier), True),
+                                  ("pinned_realloc", "MC_ListPinnedRealloc.cfg", False),
+                                  ("pinned_drain", "MC_ListPinnedDrain.cfg", False)):
+            p = ck.tlc(w, "LruList.tla", cfg, workers=min(8, ck.NCPU), timeout=3600,
+                       extra=["-coverage", "1"] if want_ok else None)
+            st = ck.parse_tlc_stats(p.stdout)
+            st["cfg"] = cfg
+            if want_ok:
+                st["coverage"] = ck.parse_coverage(p.stdout)
+            st["violated"] = [l for l in p.stdout.splitlines() if l.startswith("Error: Invariant")]
+            if want_ok and not st["ok"]:
+                st["tail"] = p.stdout[-3000:]
+            if not want_ok and not st["violated"]:
+                raise ck.ToolError("LruList no longer rejects the pinned variant %s:\n%s" %
+                                   (cfg, p.stdout[-2000:]))
+            out[key] = st
+        shutil.rmtree(w, ignore_errors=True)
+        return out
+    return ck.cached("list-" + tier, ck.spec_hash(), go)
+
+
+def list_into(prop, tier, fnd, cov, ck):
+    ls = stage_list(tier, ck)
+    rep = ls["repaired"]
+    cov["states"] = cov.get("states", 0) + rep["states"]
+    cov["transitions"] = cov.get("transitions", 0) + rep["transitions"]
+    cov.setdefault("models", {})["LruList"] = {
+        "cfg": rep["cfg"], "states": rep["states"], "transitions": rep["transitions"],
+        "action_coverage": rep.get("coverage"),
+        "pinned_variants_rejected": {k: ls[k]["violated"] for k in ("pinned_realloc", "pinned_drain")}}
+    if not rep["ok"]:
+        raise ck.ToolError("pointer-level model LruList violates its invariants:\n" + rep.get("tail", ""))
+
+
 def collect(prop, tier, fnd, cov, ck):
+    if prop in ("C16", "C17"):
+        list_into(prop, tier, fnd, cov, ck)
     if prop in ("C12", "C17"):
         model = ck.stage_model(tier, module="MC_Iter.tla", base="MC_Iter", name="model-iter")
         model_into(prop, model, cov, ck, "MC_Iter")
